@@ -251,7 +251,7 @@ func (s *Session) setStorageCallbacks() {
 	})
 
 	s.Router.HandleIncoming(simplefixgo.AllMsgTypes, func(msg []byte) bool {
-		if s.state != WaitingLogonAnswer && s.state != WaitingLogon {
+		if state := s.currentState(); state != WaitingLogonAnswer && state != WaitingLogon {
 			seqNum, err := fix.ValueByTag(msg, strconv.Itoa(s.Tags.MsgSeqNum))
 			if err != nil {
 				return true
@@ -398,7 +398,7 @@ func (s *Session) Run() (err error) {
 			return true
 		}
 
-		switch s.state {
+		switch s.currentState() {
 		case WaitingLogon:
 			s.LogonSettings = &LogonSettings{
 				HeartBtInt:      incomingLogon.HeartBtInt(),
@@ -460,7 +460,7 @@ func (s *Session) Run() (err error) {
 			return true
 		}
 
-		switch s.state {
+		switch s.currentState() {
 		case WaitingLogoutAnswer:
 			s.changeState(ReceivedLogoutAnswer, true)
 			s.changeState(WaitingLogon, true)
@@ -495,7 +495,7 @@ func (s *Session) Run() (err error) {
 			return true
 		}
 
-		if s.state == WaitingTestReqAnswer {
+		if s.currentState() == WaitingTestReqAnswer {
 			// reset SuccessfulLogged statue without event trigger
 			s.changeState(SuccessfulLogged, false)
 		}
@@ -563,7 +563,7 @@ func (s *Session) start() error {
 
 	s.Router.HandleIncoming(simplefixgo.AllMsgTypes, func(msg []byte) bool {
 		incomingMsgTimer.Refresh()
-		if s.state == WaitingTestReqAnswer {
+		if s.currentState() == WaitingTestReqAnswer {
 			s.changeState(SuccessfulLogged, false)
 		}
 
@@ -586,7 +586,7 @@ func (s *Session) start() error {
 			default:
 			}
 
-			if s.state == WaitingTestReqAnswer {
+			if s.currentState() == WaitingTestReqAnswer {
 				s.changeState(Disconnect, true)
 				return
 			}
@@ -680,6 +680,15 @@ func (s *Session) send(msg messages.Message) error {
 
 func (s *Session) sendWithErrorCheck(msg messages.Message) {
 	s.HandlerError(s.send(msg))
+}
+
+// currentState reads the state under its lock: the handlers run on the connection's dispatch
+// goroutine while the timer goroutines and the application (Logout, Stop) change the state.
+func (s *Session) currentState() LogonState {
+	s.stateMu.RLock()
+	defer s.stateMu.RUnlock()
+
+	return s.state
 }
 
 func (s *Session) IsLogged() bool {
